@@ -4,11 +4,16 @@ import "fmt"
 
 // ---------- C04: joins ----------
 
-func genJoinTable(r *Rand, maxRows int, cols []string, strCol string) []any {
+func genJoinTable(r *Rand, maxRows int, cols []string, strCol string, expo bool) []any {
 	n := r.Intn(maxRows + 1)
 	rows := make([]any, n)
 	nums := []float64{1, 2, 3, 1, 2}
 	strs := []string{"b", "a-", "-b", "a", "b-a", "", "b", "1", "1:a"}
+	if expo {
+		// magnitudes that %v prints in exponent form, next to strings spelling them that way
+		nums = []float64{1e21, 0.000030517578125, 1, 2000000, 100000000}
+		strs = []string{"1e+21", "3.0517578125e-05", "1", "1e+08", "100000000", "2e+06", "2000000"}
+	}
 	for i := range rows {
 		row := map[string]any{"rid": float64(i + 1)}
 		for _, c := range cols {
@@ -45,6 +50,10 @@ func genOn(r *Rand, la, ra string, lcols, rcols []string, lstr, rstr string, tag
 			if r.Bool() {
 				a, b = Col(la, lstr+"2"), Col(ra, rstr+"2")
 			}
+		} else if r.Chance(8) {
+			// a numeric key column against a string key column: equal when the number's text is the string
+			a, b = Col(la, Pick(r, lcols)), Col(ra, rstr)
+			*tags = append(*tags, "on:number-vs-string")
 		} else if !first && r.Chance(25) {
 			// a later conjunct on a nested key: when its parent is a scalar the read fails after an earlier key was taken
 			a, b = Col(la, "o", "q"), Col(ra, "o", "q")
@@ -98,7 +107,8 @@ func genC04(r *Rand, tier string) []Case {
 		// column names chosen so that the two sides sort differently
 		lcols := []string{"k", "z"}
 		rcols := []string{"m", "b"}
-		doc := map[string]any{"l": genJoinTable(r, 5, lcols, "ls"), "r": genJoinTable(r, 5, rcols, "rs")}
+		expo := r.Chance(12)
+		doc := map[string]any{"l": genJoinTable(r, 5, lcols, "ls", expo), "r": genJoinTable(r, 5, rcols, "rs", expo)}
 		if r.Chance(10) {
 			doc["r"] = []any{}
 		}
@@ -108,7 +118,7 @@ func genC04(r *Rand, tier string) []Case {
 		var ontags []string
 		failing := false
 		// aliases: mostly unrelated names; sometimes one alias is a proper prefix of the other (either side)
-		al := Pick(r, [][2]string{{"x", "y"}, {"x", "y"}, {"x", "y"}, {"u", "us"}, {"t2", "t"}, {"o", "ol"}, {"yy", "y"}})
+		al := Pick(r, [][2]string{{"x", "y"}, {"x", "y"}, {"x", "y"}, {"u", "us"}, {"t2", "t"}, {"o", "ol"}, {"yy", "y"}, {"t", "T"}, {"Ord", "ord"}})
 		la, ra := al[0], al[1]
 		ontags = append(ontags, map[bool]string{true: "alias:plain", false: "alias:prefix-of-other"}[la == "x"])
 		on := genOn(r, la, ra, lcols, rcols, "ls", "rs", &ontags)
@@ -129,7 +139,15 @@ func genC04(r *Rand, tier string) []Case {
 			on = And(Cmp("=", Col(la, "ls"), Col(ra, "rs")), Cmp("=", Col(ra, "rs2"), Col(la, "ls2")))
 			ontags = []string{"on:two-string-keys", "on:equi", "on:="}
 		}
-		if r.Chance(12) && len(doc["l"].([]any)) >= 2 && len(doc["r"].([]any)) >= 1 {
+		if expo {
+			// a numeric key column against a string key column whose strings spell the numbers as %v prints them
+			on = Cmp("=", Col(la, "k"), Col(ra, "rs"))
+			if r.Bool() {
+				on = Cmp("=", Col(ra, "rs"), Col(la, "k"))
+			}
+			ontags = []string{"on:number-vs-string-exponent-form", "on:equi", "on:="}
+		}
+		if !expo && r.Chance(12) && len(doc["l"].([]any)) >= 2 && len(doc["r"].([]any)) >= 1 {
 			// a key read that fails in mid-row (second key column, not the first row); every rendering of it is an
 			// error, and the well-formed joins generated next run in the same process right after these failures
 			rows := doc["l"].([]any)
